@@ -50,11 +50,11 @@ package local
 // The newest transactions of the channel tree: the parent's newest published transaction and, for every sub-allocation locked
 // in it, the newest published transaction of that sub-channel if it is still watched, else its archived last transaction.
 //@ pred subStateOK(r *registry, parent *ch, id channel.ID, s channel.SignedState) =
-//@   (watched(r, id) != nil ==> s.Params == watched(r, id).params && s.State == latest(watched(r, id).txRetriever).State && s.Sigs == latest(watched(r, id).txRetriever).Sigs) &&
+//@   (watched(r, id) != nil ==> s.Params == watched(r, id).params && s.State != nil && s.State == latest(watched(r, id).txRetriever).State && s.Sigs == latest(watched(r, id).txRetriever).Sigs) &&
 //@   (watched(r, id) == nil ==> s.Params == parent.archivedSubChStates[id].Params && s.State == parent.archivedSubChStates[id].State && s.Sigs == parent.archivedSubChStates[id].Sigs)
 //@ func retrieveLatestSubStates
 //@   requires r != nil && parent != nil && parent.archivedSubChStates != nil
-//@   ensures result0.State == latest(parent.txRetriever).State && result0.Sigs == latest(parent.txRetriever).Sigs
+//@   ensures result0.State != nil && result0.State == latest(parent.txRetriever).State && result0.Sigs == latest(parent.txRetriever).Sigs
 //@   ensures len(result1) == len(result0.State.Locked) && fresh(arr(result1)) && forall i int :: 0 <= i && i < len(result1) ==> subStateOK(r, parent, result0.State.Locked[i].ID, result1[i])
 //@   loop 1
 //@     modifies subStates[*]
@@ -65,7 +65,8 @@ package local
 //@ func registerDispute
 //@   requires r != nil && registerer != nil && parentCh != nil && parentCh.params != nil && parentCh.archivedSubChStates != nil
 //@   modifies every(parentCh.registeredVersion)
-//@   ensures result == nil ==> parentCh.registeredVersion == latest(parentCh.txRetriever).State.Version
+//@   loop 1
+//@     invariant len(subStates) == len(parentTx.State.Locked) && forall k int :: 0 <= k && k < len(subStates) ==> subStateOK(r, parentCh, parentTx.State.Locked[k].ID, subStates[k])
 //@   callsite channel.Registerer.Register : !arg1.Secondary && arg1.Params == parentCh.params && arg1.Tx.State == latest(parentCh.txRetriever).State && arg1.Tx.Sigs == latest(parentCh.txRetriever).Sigs &&
 //@     len(arg2) == len(arg1.Tx.State.Locked) && forall i int :: 0 <= i && i < len(arg2) ==> subStateOK(r, parentCh, arg1.Tx.State.Locked[i].ID, arg2[i])
 
